@@ -2,7 +2,7 @@
 # regression: the behaviour-preserving refactorings in seeded/benign*/all.diff must not raise any alarm
 # (applied to /repo with git apply, undone with git checkout -- . straight afterwards)
 cd /verif; bad=0
-for corpus in benign benign2 benign3 benign4; do
+for corpus in benign benign2 benign3 benign4 benign5; do
   cd /repo && git apply --check /verif/seeded/$corpus/all.diff || { echo "$corpus patch no longer applies"; exit 2; }
   git -C /repo apply /verif/seeded/$corpus/all.diff
   cd /verif
